@@ -652,7 +652,9 @@ def wfWhy (m : Mol) : List String :=
     (if s.2.all (fun x => x.atoms.all (hasKey m.atoms)) then [] else ["dangling-atom:" ++ s.1]) ++
     (if s.2.all (fun x => !(x.ifdef.isSome && x.ifndef.isSome)) then [] else ["both-guards:" ++ s.1]) ++
     (if s.2.all (fun x => arityOk s.1 x) then [] else
-      [(if (lookupSplit (headerName s.1)).isSome then "arity:" else "unreadable-section:") ++ s.1]))
+      [(match lookupSplit (headerName s.1) with
+        | some (some .skip) | some none | none => "unreadable-section:"
+        | _ => "arity:") ++ s.1]))
 
 /-- the built molecule as a block (for evaluating graph hypotheses on what was built) -/
 def canonBlock (moltype : Tok) (m : Mol) : Block :=
